@@ -34,7 +34,7 @@ def cmd_dev(args):
     if args.function:
         extra += ["--verify-function", args.function]
     rc, js, diags, stderr = verus.run_verus(path, log, extra=extra, rlimit=args.rlimit)
-    failures, front, notes = verus.classify(diags, out.marks)
+    failures, front, notes = verus.classify(diags, out.marks, js)
     print("verus rc=%d %.1fs" % (rc, log["verus_s"]))
     if js:
         print("results:", js.get("verification-results"))
